@@ -140,6 +140,9 @@ class Circuit:
                     "be converted to a unitary matrix."
                 )
 
+        if not lifted_matrices:
+            return np.eye(2**self.n_qubits)
+
         return reduce(operator.matmul, lifted_matrices)
 
     def bind(self, symbols_map: Dict[sympy.Symbol, Any]):
